@@ -202,19 +202,31 @@ def read_source(ctx):
         kw = calls[0][1]
         return bool(ast.literal_eval(kw['copy'])) if 'copy' in kw else (extract.arg_default(STORAGE, C, '__init__', 'copy') is True)
 
-    attempt('copy_call_keywords', copy_kw)
     attempt('copy_effective_copy', copy_effective)
-    attempt('getsel_copy', getsel_copy)
-    attempt('writers', lambda: cache_writers()[0])
-    attempt('delegates', lambda: cache_writers()[1])
-    attempt('atomic', atomic_methods)
+    return out
+
+
+def read_structure(ctx):
+    """evidence only (depends on private attribute names and on syntax): direct writers of the state attributes, delegations
+    on self, raise-before-write of the three repaired methods; None for what cannot be extracted"""
+    out = {}
+    for key, fn in (('writers', lambda: cache_writers()[0]), ('delegates', lambda: cache_writers()[1]), ('atomic', atomic_methods)):
+        try:
+            out[key] = fn()
+        except Exception as e:  # noqa
+            out[key] = None
+            ctx.note('C16 source structure (evidence only): %s not extracted (%s)' % (key, type(e).__name__))
     return out
 
 
 def generated_text(ctx):
+    """Only facts whose change is a behaviour change go into Generated/C16.lean: the defaults of public parameters (read by
+    their public names) and the `copy` flag in effect in the constructor call inside copy().  Everything that depends on
+    private attribute names or on the syntactic shape of the class body (writers of the state attributes, delegations,
+    raise-before-write) is evidence only (coverage.source_structure).  Whatever is not recognised falls back to the recorded
+    value with a note (read_source.attempt) — the text never changes because names or syntax moved."""
     s = read_source(ctx)
     L = lambda x: 'true' if x else 'false'  # noqa: E731
-    SL = lambda xs: '[' + ', '.join('"%s"' % x for x in xs) + ']'  # noqa: E731
     return ('/- GENERATED by harness/props/c16.py from the signatures in skyllh/core/storage.py (ast). Do not edit. -/\n'
             'import SkyllhModel.Model.StoreR7\n'
             'namespace Gen.C16\n'
@@ -230,36 +242,13 @@ def generated_text(ctx):
             'def copyKeepDefaultIsNone : Bool := %s\n'
             '/-- default of `rename_fields(must_exist=…)` -/\n'
             'def renameMustExistDefault : Bool := %s\n'
-            '/-- `copy()` calls the constructor with exactly these keywords besides the data -/\n'
-            'def copyCallKeywords : List String := [%s]\n'
-            '/-- `get_selection` calls the constructor with `copy=False` -/\n'
-            'def getSelectionCopyFlag : Bool := %s\n'
             '/-- the value of `copy` in effect in the constructor call inside `copy()` (explicit keyword, else the default) -/\n'
             'def copyEffectiveCopyFlag : Bool := %s\n'
             '/-- the options of the call `DataFieldRecordArray(data)` -/\n'
             'def ctorDefaults : Store.CtorOpts :=\n'
             '  ⟨if ctorKeepDefaultIsNone then none else some [], [], [], ctorCopyDefault⟩\n'
-            '/-- methods that assign / mutate `self._data_fields` directly (ast of the class body) -/\n'
-            'def fieldsWriters : List String := %s\n'
-            '/-- methods that assign / mutate `self._field_name_list` directly -/\n'
-            'def namesWriters : List String := %s\n'
-            '/-- methods that assign `self._len` -/\n'
-            'def lenWriters : List String := %s\n'
-            '/-- methods that assign `self._indices` -/\n'
-            'def idxWriters : List String := %s\n'
-            '/-- methods that write into a stored array (`self._data_fields[f][i] = …`) -/\n'
-            'def arrayWriters : List String := %s\n'
-            '/-- methods called on `self` by each method -/\n'
-            'def delegates : List (String × List String) := [%s]\n'
-            '/-- method, "every raise statement and every look-up in the partner argument precedes the first write to self state" -/\n'
-            'def atomic : List (String × Bool) := [%s]\n'
             'end Gen.C16\n') % (L(s['ctor_copy']), L(s['ctor_keep_none']), L(s['ctor_convs_none']), L(s['ctor_exc_none']),
-                                L(s['copy_keep_none']), L(s['rename_must_exist']),
-                                ', '.join('"%s"' % k for k in s['copy_call_keywords']), L(s['getsel_copy']), L(s['copy_effective_copy']),
-                                SL(s['writers']['_data_fields']), SL(s['writers']['_field_name_list']), SL(s['writers']['_len']),
-                                SL(s['writers']['_indices']), SL(s['writers']['arrays']),
-                                ', '.join('("%s", %s)' % (k, SL(v)) for k, v in sorted(s['delegates'].items())),
-                                ', '.join('("%s", %s)' % (m, L(b)) for m, b in s['atomic']))
+                                L(s['copy_keep_none']), L(s['rename_must_exist']), L(s['copy_effective_copy']))
 
 
 # ------------------------------------------------------------------------------------------
@@ -557,11 +546,10 @@ def run_ctor(ctx, n_random):
     # structure of the class body the model was written against (evidence only, never a verdict: a behaviour-preserving
     # rewrite may move a cache update into a helper): direct writers of the four state attributes, delegations, and
     # "every raise / partner look-up precedes the first write" for the three repaired methods
-    ctx.extra['source_structure'] = {k: src_now[k] for k in ('writers', 'delegates', 'atomic')}
-    for k in ('writers', 'delegates', 'atomic'):
-        if src_now[k] != RECORDED[k]:
-            ctx.note('C16: %s of DataFieldRecordArray differ from the structure the model mirrors (Model/StoreR7.lean idxWritersM …): '
-                     'now %r, recorded %r' % (k, src_now[k], RECORDED[k]))
+    struct = read_structure(ctx)
+    ctx.extra['source_structure'] = struct
+    ctx.extra['source_structure_differs_from_recorded'] = [k for k in ('writers', 'delegates', 'atomic')
+                                                           if struct[k] is not None and struct[k] != RECORDED[k]]
     cases = [('grid', c) for c in grid_cases()]
     for _ in range(n_random):
         cases.append(('random', gen_ctor(ctx.rng)))
